@@ -3,6 +3,7 @@ CONSTANTS
   Variant = "code"
   Level = 1
   MaxFaults = 1
+  Ext = 0
   Emit = FALSE
 INVARIANT InvSavedReparses
 CHECK_DEADLOCK FALSE
